@@ -624,6 +624,12 @@ class EvolutionSuperOperator(SuperOperator, TimeDependent, Saveable):
             
         Nt = self.time.length
 
+        # the steps are taken in the rotating frame: a value which was 
+        # converted to the laboratory frame after the previous step 
+        # is brought back first
+        if (self.now > 0) and self.ham.has_rwa and (not self.is_in_rwa):
+            self.convert_to_RWA(self.ham)
+
         if (self.pdeph is not None) and (self.pdeph.dtype == "Gaussian"):
 
 
